@@ -73,93 +73,90 @@ def reachable(ast):
 
 
 def erased_position(ast, ident):
-    """is every occurrence of ident (directly, or through the body of an inline function, transitively) inside a
-    binding whose name is never used, or an argument of an inline function whose parameter is never used?"""
+    """is ident dead in the program?  Liveness by need: a let / let* / assign binding is needed when a name it binds is needed
+    by the body (or by a later needed binding), an argument of an inline function when the body of that function needs a name
+    of the parameter it is bound to; everything a needed expression mentions is needed.  The identifier is in an erased
+    position when neither the main expression nor the body of any non-inline function needs it."""
     inl = {h[1]: h for h in ast["helpers"] if h[0] == "defun" and h[4]}
-    tainted = set()
+    body_need = {}
 
-    def is_occ(x):
-        return (x[0] == "var" and x[1] == ident) or (x[0] == "call" and x[1] in tainted)
+    def need_of_inline(name, depth):
+        if name in body_need:
+            return body_need[name]
+        if depth > 12:
+            return names_in(inl[name][3])          # inline cycle: everything mentioned
+        body_need[name] = need(inl[name][3], depth + 1)
+        return body_need[name]
 
-    def occurs(e):
-        return any(is_occ(x) for x in subexprs(e))
-
-    def covered(e):
-        if not occurs(e):
-            return True
+    def need(e, depth=0):
         t = e[0]
         if t == "var":
-            return False
+            return {e[1]}
+        if t in ("prim", "list"):
+            kids = e[2] if t == "prim" else e[1]
+            out = set()
+            for k in kids:
+                out |= need(k, depth)
+            return out
+        if t == "if":
+            return need(e[1], depth) | need(e[2], depth) | need(e[3], depth)
+        if t == "apply":
+            return need(e[1], depth) | need(e[2], depth)
+        if t == "lambda":
+            return set(e[1]) | (need(e[3], depth) - pat_names(e[2]))
         if t == "let":
-            # liveness: a binding is used when the body names it, or (let*) a later *used* binding does
-            live = set(names_in(e[3]))
-            used_idx = set()
-            for i in range(len(e[2]) - 1, -1, -1):
-                if e[2][i][0] in live:
-                    used_idx.add(i)
-                    if e[1] == "seq":
-                        live |= names_in(e[2][i][1])
-            ok = True
-            for i, b in enumerate(e[2]):
-                if occurs(b[1]):
-                    ok = ok and (i not in used_idx or covered(b[1]))
-            return ok and covered(e[3])
+            live = need(e[3], depth)
+            if e[1] == "seq":
+                for (n, v) in reversed(e[2]):
+                    if n in live:
+                        live = (live - {n}) | need(v, depth)
+                return live
+            out = live - {n for (n, _) in e[2]}
+            for (n, v) in e[2]:
+                if n in live:
+                    out |= need(v, depth)
+            return out
         if t == "assign":
-            live = set(names_in(e[2]))
-            used_idx = set()
-            changed_ = True
-            while changed_:
-                changed_ = False
-                for i, b in enumerate(e[1]):
-                    if i not in used_idx and pat_names(b[0]) & live:
-                        used_idx.add(i)
-                        live |= names_in(b[1])
-                        changed_ = True
-            ok = True
-            for i, b in enumerate(e[1]):
-                if occurs(b[1]):
-                    ok = ok and (i not in used_idx or covered(b[1]))
-            return ok and covered(e[2])
+            live = need(e[2], depth)
+            used = set()
+            changed = True
+            while changed:
+                changed = False
+                for i, (p, v) in enumerate(e[1]):
+                    if i not in used and pat_names(p) & live:
+                        used.add(i)
+                        live |= need(v, depth)
+                        changed = True
+            bound = set()
+            for (p, _) in e[1]:
+                bound |= pat_names(p)
+            return live - bound
         if t == "call":
-            if e[1] in tainted:
-                return False
-            ok = True
+            out = set()
             if e[1] in inl:
                 h = inl[e[1]]
-                params = []
-                p = h[2]
-                while p[0] == "pc":
-                    params.append(p[1])
-                    p = p[2]
-                for i, a in enumerate(e[2]):
-                    if occurs(a):
-                        unused = i < len(params) and not (pat_names(params[i]) & names_in(h[3]))
-                        ok = ok and (unused or covered(a))
-                if e[3][0] != "none" and occurs(e[3]):
-                    # the &rest argument binds whatever part of the parameter pattern the positional arguments leave over
-                    rest_pat = h[2]
-                    for _ in e[2]:
-                        rest_pat = rest_pat[2] if rest_pat[0] == "pc" else ["pn"]
-                    unused = not (pat_names(rest_pat) & names_in(h[3]))
-                    ok = ok and (unused or covered(e[3]))
-            else:
-                ok = all(covered(a) for a in e[2])
-                if e[3][0] != "none":
-                    ok = ok and covered(e[3])
-            return ok
-        kids = {"prim": lambda: e[2], "list": lambda: e[1], "if": lambda: e[1:4], "lambda": lambda: [e[3]], "apply": lambda: e[1:3]}.get(t, lambda: [])()
-        return all(covered(k) for k in kids)
+                bn = need_of_inline(e[1], depth)
+                pat = h[2]
+                out |= bn - pat_names(h[2])
+                for a in e[2]:
+                    if pat[0] == "pc":
+                        if pat_names(pat[1]) & bn:
+                            out |= need(a, depth)
+                        pat = pat[2]
+                    else:
+                        out |= need(a, depth)      # more arguments than parameters: not modelled, keep
+                if e[3][0] != "none" and (pat_names(pat) & bn or pat[0] == "pn"):
+                    out |= need(e[3], depth)
+                return out
+            for a in e[2]:
+                out |= need(a, depth)
+            if e[3][0] != "none":
+                out |= need(e[3], depth)
+            return out
+        return set()
 
-    # inline functions whose body has an uncovered occurrence carry it to their call sites
-    changed = True
-    while changed:
-        changed = False
-        for n, h in inl.items():
-            if n not in tainted and not covered(h[3]):
-                tainted.add(n)
-                changed = True
     bodies = [ast["body"]] + [h[3] for h in ast["helpers"] if h[0] == "defun" and not h[4]]
-    return all(covered(b) for b in bodies)
+    return all(ident not in need(b) for b in bodies)
 
 
 def m_redefine_unreachable(v, params):
